@@ -30,8 +30,10 @@ ASSUMPTIONS = ['mirror model: a private RandomState that receives the same seed(
                'results compared structurally with NaN-equality; exceptions by type and message',
                'engine A part is bounded by an execution cap (reported), the history search is complete for its depth']
 
-OPS = ('G0', 'G1', 'D', 'S0', 'S1', 'R0', 'R1', 'U', 'Sneg', 'Sbig')
-SEEDS = {'0': 0, '1': 1, 'neg': -1, 'big': 2 ** 40 + 3}      # neg/big: outside RandomState's range (get_rng folds them)
+OPS = ('G0', 'G1', 'D', 'S0', 'S1', 'R0', 'R1', 'U', 'Sneg', 'Sbig', 'Su32', 'Si32', 'Su8')
+# neg/big: outside RandomState's range (get_rng folds them); u32/i32/u8: numpy integer scalars of other widths than the
+# platform default (what SeedSequence.generate_state or an element of an int32 array gives) - the same seeds as 1, 0, 1
+SEEDS = {'0': 0, '1': 1, 'neg': -1, 'big': 2 ** 40 + 3, 'u32': np.uint32(1), 'i32': np.int32(0), 'u8': np.uint8(1)}
 
 
 def plan(ctx):
